@@ -149,6 +149,9 @@ def string_variants(cs, bo, tier):
         for adj in ((16 * u, 0), (16 * u, 8 * u), (8 * u, 0)):
             d = Dyn("LENH", True, adj[0], adj[1])
             out.append((f"str:{dname}:dyn:LENH:cal:{adj}", StrEnc(d, cs, bo, term, lead), ("dyn", "LENH", True, adj, extra)))
+        if dname == "whole":
+            # the field is the LAST thing in the packet (no sentinel after it)
+            out.append((f"str:{dname}:dyn:LEN:raw:(8, 0):last", StrEnc(Dyn("LEN", False, 8 * u, 0), cs, bo, term, lead), ("dyn", "LEN", False, (8 * u, 0), extra)))
     return out
 
 
@@ -173,6 +176,9 @@ def binary_variants(tier):
     for adj in ((8, 0), (16, 8), (4, 0), (2, 1), (1, 0), None):
         d = Dyn("LENH", True, adj[0] if adj else None, adj[1] if adj else None)
         out.append((f"bin:dyn:LENH:cal:{adj}", BinEnc(d), ("dyn", "LENH", True, adj, 0)))
+    # the field is the LAST thing in the packet (no sentinel after it): a length of 0 then ends flush with the packet
+    out.append(("bin:dyn:LEN:raw:(8, 0):last", BinEnc(Dyn("LEN", False, 8, 0)), ("dyn", "LEN", False, (8, 0), 0)))
+    out.append(("bin:lookup-zero-then-catch-all:last", BinEnc(lkz), ("lookup", (12, 0, 12, 12))))
     return out
 
 
@@ -221,7 +227,7 @@ def mk_doc(variants_chunk, offset, kind_of_type):
             pts.append(docs.pad_type(offset))
             prs.append(Param("PAD", f"PAD{offset}_T"))
             ents.append(("p", "PAD"))
-        ents += [("p", "LEN"), ("p", "LENC"), ("p", "LENH"), ("p", "SEL"), ("p", "P6"), ("p", f"F_{j}"), ("p", "SENT")]
+        ents += [("p", "LEN"), ("p", "LENC"), ("p", "LENH"), ("p", "SEL"), ("p", "P6"), ("p", f"F_{j}")] + ([] if label.endswith(":last") else [("p", "SENT")])
         specs.append((pts, prs, ents))
     return docs.selector_doc(specs)
 
@@ -309,7 +315,7 @@ def _task(task):
         try:
             with case_alarm(600):
                 for sel, lv, fb in packets_for(label, enc, kind, cs, bo, offset, max_units, is_string):
-                    bits = "1" * offset + format(lv & 0xFF, "08b") * 3 + format(sel, "02b") + "000000" + fb + "10100101"
+                    bits = "1" * offset + format(lv & 0xFF, "08b") * 3 + format(sel, "02b") + "000000" + fb + ("" if label.endswith(":last") else "10100101")
                     bits += "0" * ((-len(bits)) % 8)
                     pkt = docs.packet_for(j, bits)
                     want = decode_packet(doc, pkt)
